@@ -1,7 +1,7 @@
 #!/bin/bash
 # tools/wave.sh <prop> <dir-with-_mut> [extra checks]: evaluate mutants 1..3 of a sub-agent worktree
 P=$1; D=$2; shift 2
-for k in 1 2 3; do
+for k in 1 2 3 4; do
   [ -d "$D/_mut/$k" ] || continue
   /verif/tools/mutcheck.sh "$D/_mut/$k" $P "$@" 2>&1 | grep -E "^(CONFIRM|CHECK|violation|verif: harness)" | cut -c1-300 | head -4
 done
